@@ -79,5 +79,5 @@ Progress == [][i' = i + 1]_vars
 
 \* cost tables over Sym = {0,1} (row = pattern symbol, column = text symbol)
 CostsQuick == { << >>, << <<1, 0>>, <<0, 0>> >>, << <<0, 1>>, <<2, 3>> >> }
-CostsThorough == {<< >>} \cup {<< <<a, b>>, <<c, d>> >> : a \in {0, 1}, b \in {0, 3}, c \in {1, 2}, d \in {0, 2}}
+CostsThorough == CostsQuick \cup {<< <<0, 2>>, <<3, 0>> >>, << <<0, 3>>, <<1, 2>> >>}
 =============================================================================
